@@ -154,12 +154,16 @@ def run(ctx):
         kind = int(rng.integers(3))
         nlist = int(rng.integers(1, 4))
         datas, ys, rk = [], [], []
+        nonpos = kind == 0 and rng.random() < 0.3        # every data set of this case is without a positive value
         for _ in range(nlist):
             N = int(rng.integers(3, 80))
             if kind == 0:     # plain arrays (no range): 1-D or 2-D
                 a = rng.normal(200, 400, size=(N, 3)) if rng.random() < 0.6 else np.abs(rng.normal(200, 400, size=(N, 3))) + 1
                 ch = 1
-                if rng.random() < 0.3:
+                if nonpos:
+                    # no positive value at all (all zero, or zero and negative): the derived T is not a valid parameter
+                    a = np.zeros((N, 3)) if rng.random() < 0.5 else -np.abs(rng.normal(0, 50, size=(N, 3))) * (rng.random((N, 3)) < 0.5)
+                elif rng.random() < 0.3:
                     # the most negative event is tiny (|r| < T*10^-M): the documented W is clamped at 0, never negative
                     a = np.abs(a) + 1
                     a[int(rng.integers(N)), ch] = -float(10 ** rng.uniform(-7, 0.5))
